@@ -30,12 +30,13 @@ type c17Case struct {
 	PreTimeline bool        `json:"preTimeline,omitempty"` // the database already has a timeline id before the snapshot
 	Listeners   int         `json:"listeners,omitempty"`
 	// concurrent
-	Entities    int `json:"entities,omitempty"`
-	Readers     int `json:"readers,omitempty"`
-	GensBefore  int `json:"gensBefore,omitempty"`  // generations committed before the snapshot
-	GensBetween int `json:"gensBetween,omitempty"` // generations committed between snapshot and start of the concurrent phase
-	WriterTxs   int `json:"writerTxs,omitempty"`   // generation bumps attempted by the concurrent writer
-	Restores    int `json:"restores,omitempty"`
+	Entities    int  `json:"entities,omitempty"`
+	Readers     int  `json:"readers,omitempty"`
+	GensBefore  int  `json:"gensBefore,omitempty"`  // generations committed before the snapshot
+	GensBetween int  `json:"gensBetween,omitempty"` // generations committed between snapshot and start of the concurrent phase
+	WriterTxs   int  `json:"writerTxs,omitempty"`   // generation bumps attempted by the concurrent writer
+	Restores    int  `json:"restores,omitempty"`
+	BatchWriter bool `json:"batchWriter,omitempty"` // the concurrent writer uses Db.Batch instead of Db.Update
 }
 
 func genC17(t *rapid.T) c17Case {
@@ -47,6 +48,7 @@ func genC17(t *rapid.T) c17Case {
 			GensBetween: rapid.IntRange(0, 3).Draw(t, "gensBetween"),
 			WriterTxs:   rapid.IntRange(1, 12).Draw(t, "writerTxs"),
 			Restores:    rapid.IntRange(1, 2).Draw(t, "restores"),
+			BatchWriter: rapid.Bool().Draw(t, "batchWriter"),
 		}
 	}
 	c := c17Case{Kind: "sequential"}
@@ -247,7 +249,15 @@ func genRole(g int) string    { return fmt.Sprintf("gen-%04d", g) }
 
 // writeGeneration moves every entity, its unique index value and its set index value to generation g in one transaction.
 func writeGeneration(w *kit.World, n, g int, create bool) error {
-	return w.Z.Db.Update(kit.NewCtx(), func(ctx boltz.MutateContext) error {
+	return writeGenerationVia(w, n, g, create, false)
+}
+
+func writeGenerationVia(w *kit.World, n, g int, create, batch bool) error {
+	run := w.Z.Db.Update
+	if batch {
+		run = w.Z.Db.Batch
+	}
+	return run(kit.NewCtx(), func(ctx boltz.MutateContext) error {
 		for i := 0; i < n; i++ {
 			e := (&kit.EntSpec{Name: genName(g, i), Roles: []string{genRole(g)}, Note: fmt.Sprint(g)}).ToEnt("things", fmt.Sprintf("e%d", i))
 			var err error
@@ -325,7 +335,7 @@ func readGeneration(w *kit.World, n int) (int, error) {
 }
 
 func runC17Concurrent(c c17Case) kit.Result {
-	res := kit.Result{Classes: []string{"kind:concurrent", fmt.Sprintf("readers:%d", c.Readers), fmt.Sprintf("restores:%d", c.Restores)}}
+	res := kit.Result{Classes: []string{"kind:concurrent", fmt.Sprintf("readers:%d", c.Readers), fmt.Sprintf("restores:%d", c.Restores), fmt.Sprintf("batch-writer:%v", c.BatchWriter)}}
 	w, err := kit.NewWorld(c17GenCfg)
 	if err != nil {
 		res.Err = err
@@ -423,13 +433,19 @@ func runC17Concurrent(c c17Case) kit.Result {
 				fail(fmt.Errorf("writer: %v", err))
 				return
 			}
-			werr := writeGeneration(w, c.Entities, cur+1, false)
+			werr := writeGenerationVia(w, c.Entities, cur+1, false, c.BatchWriter)
 			after, rerr := readGeneration(w, c.Entities)
 			if rerr != nil {
 				fail(fmt.Errorf("writer: %v", rerr))
 				return
 			}
 			note("writer: %d -> %d err=%v, then sees %d (restore epoch %d -> %d)", cur, cur+1, werr, after, epoch, restoreEpoch.Load())
+			if werr != nil {
+				// nothing in this workload can legitimately reject the write: a transaction that overlaps a restore
+				// must run against the old or the new database, not fail because the database went away under it
+				fail(fmt.Errorf("writer's transaction to generation %d failed: %v (restore epoch %d -> %d)", cur+1, werr, epoch, restoreEpoch.Load()))
+				return
+			}
 			if restoreEpoch.Load() == epoch {
 				// no restore in between: the update is either entirely visible or failed cleanly
 				if werr == nil && after != cur+1 {
